@@ -256,6 +256,7 @@ func runC05(c *eng.Ctx) {
 
 	// ---- R05.8 recovery reconciles the log with its index
 	c.Rule("R05.8", "K2")
+	ruleRebuiltIndexStartsEmpty(c)
 	ruleEpochRecoveryAssignsEveryMissingEpoch(c)
 	ruleRebuildIndexAcceptsGaps(c)
 	if fn := c.Fn(cl + "(*segment).setupIndex"); fn != nil {
